@@ -74,6 +74,10 @@ REVERTS = [
     ('F79-unhashed-issuer-fingerprint-version', '00f6cb9', {'C15': ['S15-6:issuer-fp-version-every-area']}),
     ('F80-armor-dash-line-blanks', '6823cca', {'C10': ['S10-8:dash-line-trailing-blanks']}),
     ('F81-partial-chunk-size-bound', '12682c3', {'C17': ['S17-6:partial-chunk-size-at-most-2^30']}),
+    ('F82-nesting-depth-every-layer', 'bd98062', {'C04': ['focus:nesting-depth-counts-every-layer']}),
+    ('F83-fixed-generator-held-to-length', '238b44b', {'C17': ['S17-7:fixed-generator-held-to-length']}),
+    ('F84-session-key-forms', 'aa891ad', {'C18': ['ring:cross-group-compares-key-octets']}),
+    ('F85-ecdh-compressed-point', 'c85f598', {'C05': ['S05-19:sec1-point-length']}),
     ('F67-ecdh-zero-padding', '5930fe1', {'C12': ['ecdh:unpad-lower-bound']}),
     ('F68-armor-leading-dashes', 'cfc42e1', {'C10': ['S10-7:leading-text-skipped-to-full-opener']}),
 ]
